@@ -208,7 +208,7 @@ def c09(prop, tier, t0):
     m["distinct_keys"].update(outcomes)
     cov = generic_cov(m, "inputs: mutation closure of the 5 shipped device configurations and of a synthetic one using every analog type and optional field "
                          "(per line: delete / duplicate / truncate-before; per key=value and per inline-table field: 22 ill-typed literals incl. dates, times, arrays, tables; "
-                         "dotted/quoted/unknown keys; every byte-prefix; all pairs of line deletions of the synthetic file), all token sequences of length <=4 (thorough 5) over a 16-token TOML alphabet, "
+                         "dotted/quoted/unknown keys; every byte-prefix; all pairs of line deletions of the synthetic file), all token sequences of length <=5 (thorough 6) over a 16-token TOML alphabet, "
                          "all byte strings of length <=2 and length 3-4 over 12 bytes -> config.ParseData under recover + 120 s watchdog; the same closure of hidi.toml + a 5-field presence/value matrix -> "
                          "the real LoadHIDIConfig. distinct_nontrivial = distinct outcomes (accepted input / normalised error message / panic message).",
                       {"hidi_toml_inputs": len(names), "build_s": round(bt, 1)})
@@ -425,3 +425,33 @@ def c17(prop, tier, t0):
         "where several highlights apply to one LED any of them is accepted; LEDs of unmapped keys and unknown LED names are not judged; malformed controller descriptions (no LEDs, colours/LED count mismatch) are not generated",
         "the LED-name <-> key table is taken from the code (device.KeyToLedName)",
     ], t0)
+
+
+# ------------------------------------------------------------------ replay of a recorded violation (no explorer)
+def replay(prop, path):
+    """Re-execute exactly the recorded case against the current working tree of /repo."""
+    import json as _json
+    rec = _json.load(open(path))
+    det = rec.get("detail") or {}
+    print("property %s, class %s\n  %s" % (prop, rec.get("class"), rec.get("what")))
+    if prop in ("C01", "C02", "C03", "C04", "C05", "C07", "C08", "C13", "C14") and det.get("history") is not None:
+        binary, _ = vlib.build("enga")
+        for tier in ("quick", "thorough"):
+            p = vlib.run([binary, "-prop", prop, "-tier", tier, "-replay", path], check=False)
+            if "scenario not found" not in p.stdout:
+                print(p.stdout)
+                return 0 if p.returncode == 0 else 2
+        print(p.stdout)
+        return 2
+    if prop in ("C15", "C16") and det.get("replay"):
+        h = prop.lower()
+        binary, _ = engb_build(h)
+        arg = det["replay"].split("-replay ", 1)[1]
+        for tier in ("quick", "thorough"):
+            p = vlib.run([binary, "-tier", tier, "-replay", arg], check=False)
+            print(p.stdout[-6000:])
+            return 0 if p.returncode == 0 else 2
+    # enumerators / crash points / LED frames: the record itself is the complete case (input text, tree, layout + steps)
+    print(_json.dumps(det, indent=1)[:6000])
+    print("(re-run `./vcheck %s quick`: enumeration is deterministic, the same case is visited again)" % prop)
+    return 0
